@@ -12,7 +12,7 @@ queueSize, err := queue.Size()
 switch { case err != nil: arm RetryInterval
          case time.Now().Before(retryAt): arm time.Until(retryAt)
          case queueSize == 0: arm maxTimerDuration
-         default: arm calculateNextTick() }
+         default: arm calculateNextTick() }     -- Head() error, ErrQueueEmpty included: RetryInterval
 select { case <-timer.C: if err := executeAndReschedule(ctx); err != nil { retryAt = time.Now().Add(RetryInterval) }
          case <-interrupt: (nothing) }
 ```
@@ -274,13 +274,17 @@ instance decWellTimed (S : Shape) (c : Cfg) (trig : Trig) :
 /-- well-formedness of the regenerated shape -/
 def WF (S : Shape) : Prop :=
   S.onSizeErr = .retry ∧ S.backoff = .deadline ∧ S.onBackoff = .untilRetry ∧ S.onEmpty = .max ∧
-  S.onDefault = .nextTick ∧ S.headErr = .retry ∧ S.headEmpty = .zero ∧ S.stateFromTick = true ∧
+  S.onDefault = .nextTick ∧ S.headErr = .retry ∧ S.headEmpty = .retry ∧ S.stateFromTick = true ∧
   S.popErrReturned = true ∧ S.popEmptyNil = true ∧ S.pushErrReturned = true
 
 instance (S : Shape) : Decidable (WF S) := by unfold WF; infer_instance
 
 /-- the loop as it was before the repairs (no back-off state): the fault-free reference, and a negative control -/
 def plain (S : Shape) : Shape := { S with backoff := .none }
+
+/-- `calculateNextTick` as it was before its repair: the zero duration when `Head()` returns `ErrQueueEmpty`
+    (a negative control: a queue that reports a size but has no head makes the loop spin) -/
+def zeroOnEmptyHead (S : Shape) : Shape := { S with headEmpty := .zero }
 
 /-- the loop after the first repair (`failed` flag, full `RetryInterval` in every iteration): a negative control -/
 def flagVariant (S : Shape) : Shape := { S with backoff := .flag, onBackoff := .retry }
